@@ -171,6 +171,8 @@ def check_c10(pid, tier, replay):
         rule += list(gen_pitch.exhaustive_rule(4))
     rnd = [gen_pitch.random_history(rng, 50 if q else 90) for _ in range(250 if q else 3000)]
     hang = gen_pitch.hang_histories()
+    # the same rules with the sequencer as the deliverer, two MIDI ports
+    rnd += [gen_pitch.seq_history(rng, 50 if q else 90) for _ in range(80 if q else 1000)]
     # interleave the expensive sweep histories with the cheap ones so that the chunks are balanced
     heavy = sweeps + fine + keysw
     cheap = beh + porta + rule + rnd + gen_pitch.reset_histories()
